@@ -1064,6 +1064,7 @@ class _Starved(Exception):
 
 
 async def _dead_connection_main(case: dict) -> dict:
+    from easynetwork.exceptions import StreamProtocolParseError
     from easynetwork.protocol import BufferedStreamProtocol, StreamProtocol
     from easynetwork.serializers.line import StringLineSerializer
     from easynetwork.servers.async_tcp import AsyncTCPNetworkServer
@@ -1073,7 +1074,7 @@ async def _dead_connection_main(case: dict) -> dict:
 
     loop = asyncio.get_running_loop()
     backend = VerifBackend()
-    res: dict[str, Any] = {"thrown": 0, "thrown_injected": 0, "run": 0, "last_tick": -1, "starved": False, "max_run": 0, "disconnected": [], "handler_errors": []}
+    res: dict[str, Any] = {"thrown": 0, "thrown_injected": 0, "parse_errors": 0, "run": 0, "last_tick": -1, "starved": False, "max_run": 0, "disconnected": [], "handler_errors": []}
     FAULTY = 41000
 
     class Handler(AsyncStreamRequestHandler):  # type: ignore[type-arg]
@@ -1097,6 +1098,8 @@ async def _dead_connection_main(case: dict) -> dict:
                     res["thrown"] += 1
                     if getattr(exc, "errno", None) is not None:  # (an idle time-out of the yielded timeout carries no errno)
                         res["thrown_injected"] += 1
+                    if isinstance(exc, StreamProtocolParseError):
+                        res["parse_errors"] += 1
                     tick = loop.ticks  # type: ignore[attr-defined]
                     res["run"] = res["run"] + 1 if tick == res["last_tick"] else 1
                     res["last_tick"] = tick
@@ -1134,13 +1137,18 @@ async def _dead_connection_main(case: dict) -> dict:
     if case["faulty_request_first"]:
         loop.call_at(0.125, mems[FAULTY].feed, b"hello\n")
     exc: BaseException
-    if case["errno"] in DISCONNECT_ERRORS:
+    if case["errno"] == "PARSE":
+        # not a dead connection but a hostile one: a burst of malformed frames in one segment
+        loop.call_at(case["fault_at"], mems[FAULTY].feed, b"\xff\n" * case["malformed"])
+        exc = None  # type: ignore[assignment]
+    elif case["errno"] in DISCONNECT_ERRORS:
         exc = DISCONNECT_ERRORS[case["errno"]](104, case["errno"])
     elif case["errno"] == "ETIMEDOUT":
         exc = TimeoutError(DEAD_ERRNOS["ETIMEDOUT"], "Connection timed out")
     else:
         exc = OSError(DEAD_ERRNOS[case["errno"]], case["errno"])
-    loop.call_at(case["fault_at"], mems[FAULTY].feed_error, exc)
+    if exc is not None:
+        loop.call_at(case["fault_at"], mems[FAULTY].feed_error, exc)
     await asyncio.sleep(t + 2.0)
     res["serving"] = not serve_task.done()
     res["echoes"] = {p: bytes(mems[p].sent) for p in expected}
@@ -1166,8 +1174,13 @@ def run_dead_connection_case(case: dict) -> Outcome:
     if r["starved"]:
         raise Violation(
             "event-loop-starved",
-            f"the dead connection's error ({case['errno']}) was thrown into its (tolerant) handler {STARVE_LIMIT} times in a row without the "
-            "event loop running in between: every other client is starved for as long as that handler keeps going",
+            (
+                f"{case.get('malformed')} malformed frames of one client were thrown into its (tolerant) handler as parse errors, {STARVE_LIMIT} of them "
+                "in a row without the event loop running in between: every other client is starved for as long as that client keeps sending garbage"
+                if case["errno"] == "PARSE"
+                else f"the dead connection's error ({case['errno']}) was thrown into its (tolerant) handler {STARVE_LIMIT} times in a row without the "
+                "event loop running in between: every other client is starved for as long as that handler keeps going"
+            ),
             **detail,
         )
     if not r["serving"]:
@@ -1181,6 +1194,8 @@ def run_dead_connection_case(case: dict) -> Outcome:
             )
         if FAULTY_PORT_DEAD not in r["disconnected_before_shutdown"] or not r["faulty_closed"]:
             raise Violation("disconnection-hook", f"{case['errno']}: on_disconnection() did not run / the connection was not closed", **detail)
+    if case["errno"] == "PARSE" and case["handler"] != "idle-timeout" and r["parse_errors"] != case["malformed"]:
+        raise Violation("parse-errors-miscounted", f"{case['malformed']} malformed frames sent, {r['parse_errors']} parse errors reached the tolerant handler", **detail)
     for p, exp in r["expected"].items():
         if r["echoes"][p] != exp:
             raise Violation("healthy-client-affected", f"healthy client {p} got {len(r['echoes'][p])} of {len(exp)} echoed bytes", **detail)
@@ -1194,7 +1209,8 @@ FAULTY_PORT_DEAD = 41000
 @st.composite
 def st_dead_connection_case(draw: st.DrawFn, tier: str) -> dict:
     return {
-        "errno": draw(st.sampled_from(sorted(DEAD_ERRNOS) + sorted(DISCONNECT_ERRORS))),
+        "errno": draw(st.sampled_from(sorted(DEAD_ERRNOS) + sorted(DISCONNECT_ERRORS) + ["PARSE", "PARSE"])),
+        "malformed": draw(st.sampled_from([3, 60, 500, 3000])),
         "handler": draw(st.sampled_from(["idle-timeout", "catch-all", "return-on-error"])),
         "idle_timeout": draw(st.sampled_from([None, 0.5, 5.0])),
         "buffered": draw(st.booleans()),
